@@ -113,6 +113,14 @@ def step (_ : Unit) (ts : List String) : Unit × String :=
         | some none => "nan"
         | some (some t) => if -62135596800000 < t && t < 253402300799999 then "ok" else "range"
       | none => "bad-op"
+    | ["dbl", a] => match a.toInt? with
+      | some ms =>
+        if inRange ms then
+          let d := toDouble ms
+          let c := normD 64 d.1 d.2
+          s!"{c.1} {c.2} {roundMsD d} {fieldsStr (calcD ms)} {str (toUTCStringD .full ms)}"
+        else "range"
+      | none => "bad-op"
     | ["splitu", a] => match a.toInt? with
       | some u => if inRange (roundMs u) then fieldsStr (calcU u) else "range"
       | none => "bad-op"
